@@ -305,7 +305,7 @@ def norm(label):
         m = _SET.search(label)
         if not m:
             return label
-        label = label[:m.start()] + '{!' + '&'.join(sorted(m.group(1).split(';'))) + '!}' + label[m.end():]
+        label = label[:m.start()] + '{!' + '&'.join(sorted(set(m.group(1).split(';')))) + '!}' + label[m.end():]
 
 
 def norm_run(status, ret, log):
